@@ -19,6 +19,7 @@ package main
 import (
 	"fmt"
 	"go/constant"
+	"go/token"
 	"go/types"
 	"sort"
 	"strings"
@@ -303,6 +304,7 @@ func checkC04(p *Prog, r *Report) {
 	c04Batch(p, r, rr)
 	c04Prepared(p, r, rr)
 	c04Initial(p, r, rr)
+	sendResult(p, r, "C04.send-result", rr)
 }
 
 // classifier models shared by check/batch: fork into (true,nil) (false,nil) (false,err)
@@ -740,4 +742,127 @@ func c04Initial(p *Prog, r *Report, rr *reqRoles) {
 		}
 		r.check(len(bad) == 0 && len(outs) > 0, rule, fmt.Sprintf("default:%s[idempotent-graph=%v]", defFn.Name(), ig), p.Pos(defFn.Pos()), fmt.Sprintf("%d paths", len(outs)), strings.Join(dedupe(bad), " || "))
 	}
+}
+
+// sendResult decides what the host walk (and C01's hand-over) assume of the function
+// that hands a request to a backend: an error means the request was NOT put on any
+// connection's write queue, so moving on to the next host is not a second execution;
+// nil means it was registered in the connection's pending table, so a reply or the
+// loss of that connection will reach it.
+func sendResult(p *Prog, r *Report, rule string, rr *reqRoles) {
+	r.Rule(rule, "the function the host walk uses to hand a request to a backend returns a non-nil error only on paths on which the request was not put on a connection's write queue and is no longer registered as pending there (trying the next host is then neither a re-execution nor a second activation), and returns nil only while the request is registered as pending on that connection")
+	var root *ssa.Function
+	eachCall(rr.execLoop, func(c ssa.CallInstruction) {
+		if callIsMethod(c, "proxycore", "Session", "Send") {
+			root = c.Common().StaticCallee()
+		}
+	})
+	if root == nil {
+		fatalf("anchor: the backend hand-over call of %s is not statically resolved", rr.execLoop)
+	}
+	pend := getPendingRoles(p)
+	s := newSim(p)
+	s.Inline = func(fn *ssa.Function) bool {
+		return fn.Pkg != nil && fn.Pkg.Pkg.Path() == pkgPath("proxycore") && fn.Parent() == nil && fn != pend.store
+	}
+	s.Model = func(sm *Sim, st *State, call ssa.CallInstruction, callee *ssa.Function) []*State {
+		// registering: either a stream id (>= 0) was free and the request is stored under it,
+		// or the ids are exhausted (-1) and nothing is stored (C02.stream-alloc decides that contract)
+		if callee != nil && callee == pend.store {
+			okSt, full := st.clone(), st.clone()
+			SetCallResult(okSt, call, avInt(0))
+			okSt.addEff("registered")
+			SetCallResult(full, call, avInt(-1))
+			return []*State{okSt, full}
+		}
+		// taking the request back out of the pending table: either this caller gets it
+		// (the entry is gone) or the closing notification already claimed it
+		if callee == nil || callee != pend.loadAndDelete {
+			return nil
+		}
+		won, lost := st.clone(), st.clone()
+		SetCallResult(won, call, AV{K: avNonNil})
+		won.addEff("taken-back")
+		SetCallResult(lost, call, AV{K: avNil})
+		lost.addEff("claimed-by-closing")
+		return []*State{won, lost}
+	}
+	isQueueSend := func(ch ssa.Value) bool {
+		ct, ok := ch.Type().Underlying().(*types.Chan)
+		if !ok {
+			return false
+		}
+		_, isIface := ct.Elem().Underlying().(*types.Interface)
+		return isIface
+	}
+	s.OnInstr = func(st *State, in ssa.Instruction) {
+		if snd, ok := in.(*ssa.Send); ok && isQueueSend(snd.Chan) {
+			st.addEff("queued")
+			st.aux["queuedAt"] = p.Pos(snd.Pos())
+		}
+	}
+	s.OnBranch = func(st *State, cond ssa.Value, truth bool) {
+		bo, ok := cond.(*ssa.BinOp)
+		if !ok || bo.Op != token.EQL {
+			return
+		}
+		ex, ok := bo.X.(*ssa.Extract)
+		if !ok || ex.Index != 0 {
+			return
+		}
+		sel, ok := ex.Tuple.(*ssa.Select)
+		if !ok {
+			return
+		}
+		k, ok := constInt(bo.Y)
+		if !ok || !truth || int(k) >= len(sel.States) {
+			return
+		}
+		if stt := sel.States[k]; stt.Dir == types.SendOnly && isQueueSend(stt.Chan) {
+			st.addEff("queued")
+			st.aux["queuedAt"] = p.Pos(sel.Pos())
+		}
+	}
+	outs := s.Run(root, newState())
+	r.count("sim_states", s.Nodes)
+	var bad []string
+	nQueuedNil, nErr := 0, 0
+	for _, o := range outs {
+		if o.Panic {
+			continue
+		}
+		q, reg := o.St.eff["queued"], o.St.eff["registered"]
+		desc := fmt.Sprintf("path returning %s at %s (queued=%d at %s, registered=%d)", o.Ret, p.Pos(o.Pos), q, o.St.aux["queuedAt"], reg)
+		back, claimed := o.St.eff["taken-back"], o.St.eff["claimed-by-closing"]
+		if o.Ret.K == avNil {
+			if reg == 0 {
+				bad = append(bad, "reports success although the request was never registered as pending: "+desc)
+			}
+			if back > 0 {
+				bad = append(bad, "reports success although the request was taken out of the pending table again: no reply and no connection loss will reach it: "+desc)
+			}
+			if q >= 1 {
+				nQueuedNil++
+			}
+			continue
+		}
+		nErr++
+		if q > 0 {
+			bad = append(bad, "may return an error after the request was put on the write queue (the caller then tries the next host while this connection may still execute it): "+desc)
+		}
+		if q > 1 {
+			bad = append(bad, "request queued more than once: "+desc)
+		}
+		if reg > 0 && back == 0 {
+			why := "the request stays registered on this connection"
+			if claimed > 0 {
+				why = "the connection's closing notification has claimed the request"
+			}
+			bad = append(bad, "returns an error although "+why+": the caller moves on to the next host and the closing notification delivers OnClose for the same request as well (retried or failed twice): "+desc)
+		}
+	}
+	if nQueuedNil == 0 {
+		bad = append(bad, "no path hands the request to a connection's write queue and reports success")
+	}
+	r.check(len(bad) == 0, rule, relName(root), p.Pos(root.Pos()), fmt.Sprintf("%d paths, %d may fail, %d queue and succeed", len(outs), nErr, nQueuedNil), strings.Join(dedupe(bad), " || "))
 }
